@@ -109,8 +109,10 @@ def check(ctx):
         ctx.ob("local", "the local node announced as provider changes nothing", not bad_calls, lk.where(pr), str([R(pr, x)[:80] for x in bad_calls]))
     other = [s for s in store_calls(pr) if s not in ap and re.search(r"::(put|remove|remove_provider)$", strip_generics(pr.call_name(s.term)))]
     ctx.ob("local", "provider_received changes the store only through add_provider", not other, lk.where(pr), str([R(pr, x)[:60] for x in other]))
-    who = sorted({s.body.npath for s in prog.callers(K, r"record::store::RecordStore::add_provider$|RecordStore>::add_provider$") if "record::store::memory" not in s.body.npath})
-    ctx.ob("local", "add_provider called only by provider_received and start_providing", who == ["libp2p_kad::behaviour::Behaviour::provider_received", "libp2p_kad::behaviour::Behaviour::start_providing"], msg=str(who))
+    who = {lk.root_fn(prog, s.body) for s in prog.callers(K, r"record::store::RecordStore::add_provider$|RecordStore>::add_provider$") if "record::store::memory" not in s.body.npath}
+    two = {"libp2p_kad::behaviour::Behaviour::provider_received", "libp2p_kad::behaviour::Behaviour::start_providing"}
+    bad = sorted(c.npath for c in who if not lk.allowed_fn(prog, K, c, two))
+    ctx.ob("local", "add_provider called only by provider_received and start_providing", not bad and len(who) >= 2, msg="callers %s; not permitted %s" % (sorted(c.short for c in who), bad))
     sp = ctx.body(K, BH + r"start_providing$")
     for s in [x for x in store_calls(sp) if strip_generics(sp.call_name(x.term)).endswith("add_provider")]:
         a = render(sp.site_expr(s)[2][1])
@@ -151,8 +153,10 @@ def check(ctx):
     for s in [x for x in rc if x.body is h]:
         t = R(h, s)
         ctx.ob("publisher", "the tested record is the one carried by HandlerEvent::PutRecord", EV + "@PutRecord.record" in [render(a) for a in h.site_expr(s)[2]], s.loc(), t)
-    who = sorted({s.body.npath for s in prog.callers(K, r"record::store::RecordStore::put$|RecordStore>::put$") if "record::store::memory" not in s.body.npath})
-    ctx.ob("publisher", "store.put called only by record_received and put_record", who == ["libp2p_kad::behaviour::Behaviour::put_record", "libp2p_kad::behaviour::Behaviour::record_received"], msg=str(who))
+    who = {lk.root_fn(prog, s.body) for s in prog.callers(K, r"record::store::RecordStore::put$|RecordStore>::put$") if "record::store::memory" not in s.body.npath}
+    two = {"libp2p_kad::behaviour::Behaviour::put_record", "libp2p_kad::behaviour::Behaviour::record_received"}
+    bad = sorted(c.npath for c in who if not lk.allowed_fn(prog, K, c, two))
+    ctx.ob("publisher", "store.put called only by record_received and put_record", not bad and len(who) >= 2, msg="callers %s; not permitted %s" % (sorted(c.short for c in who), bad))
     other = [s for s in store_calls(rr) if s not in puts and re.search(r"::(remove|add_provider|remove_provider)$", strip_generics(rr.call_name(s.term)))]
     ctx.ob("publisher", "record_received changes the store only through put", not other, lk.where(rr), str([R(rr, x)[:60] for x in other]))
 
